@@ -640,28 +640,28 @@ func Run(c *corr.Ctx) {
 	g.b64HandWritten()
 	g.boundarySweep()
 	g.memoryCases()
-	for i := 0; i < c.N(400, 20000); i++ {
+	for i := 0; i < c.N(400, 6000); i++ {
 		g.writtenCase(fmt.Sprintf("written-%d", i), c.N(5, 8), i%4 == 0)
 	}
-	for i := 0; i < c.N(600, 40000); i++ {
+	for i := 0; i < c.N(600, 12000); i++ {
 		g.mutatedCase(fmt.Sprintf("mutated-%d", i))
 	}
-	for i := 0; i < c.N(3, 60); i++ {
+	for i := 0; i < c.N(3, 30); i++ {
 		g.truncationSweep(fmt.Sprintf("trunc-%d", i))
 	}
-	for i := 0; i < c.N(200, 10000); i++ {
+	for i := 0; i < c.N(200, 3000); i++ {
 		g.keyCase(fmt.Sprintf("keys-%d", i))
 	}
-	for i := 0; i < c.N(300, 20000); i++ {
+	for i := 0; i < c.N(300, 5000); i++ {
 		g.b64Case(fmt.Sprintf("b64-%d", i), i%3 == 0)
 	}
-	for i := 0; i < c.N(400, 20000); i++ {
+	for i := 0; i < c.N(400, 6000); i++ {
 		g.b64Malformed(fmt.Sprintf("b64-malformed-%d", i))
 	}
-	for i := 0; i < c.N(150, 6000); i++ {
+	for i := 0; i < c.N(150, 2000); i++ {
 		g.tunnelCase(fmt.Sprintf("tunnel-%d", i), i%3 == 0)
 	}
-	for i := 0; i < c.N(200, 10000); i++ {
+	for i := 0; i < c.N(200, 3000); i++ {
 		g.tunnelMalformed(fmt.Sprintf("tunnel-malformed-%d", i))
 	}
 	runE2E(c, g)
